@@ -258,6 +258,11 @@ def oracles(ctx, cfg, m, b, tag):
             ctx.violation("C20:%s:%s" % (key, cfg["struct"]), "%s (%s)" % (msg, tag), dict(kind="boot", cfg=cfg, failed=msg))
         return False, None
     EV = np.asarray(ev.transpose("n", "mode").values)
+    if EV.shape != (B, k) or np.isnan(EV).any():
+        # every member is the model's analysis of a resample: the model's number of modes, all of them present
+        ctx.violation("C20:structure:%s" % cfg["struct"], "explained variances of the members have shape %s with %d NaN entries; %d members with the model's %d modes each were "
+                      "asked for (%s)" % (EV.shape, int(np.isnan(EV).sum()), B, k, tag), dict(kind="boot", cfg=cfg, failed="member mode dimension"))
+        return False, None
     TV = np.asarray(tv.values)
     SC = np.asarray(sc.transpose("n", cfg["sdim"], "mode").values)
     idxs = draws(seed, n, B)
